@@ -40,6 +40,7 @@ class StepBudget(Base):
     def __init__(self, hub, model, scale=1, use_lines=True, objective_width=None, trace_len=200):
         super().__init__()
         self.scale = scale
+        self.hub_ref = hub
         doms = model["doms"]
         self.nprops = max(1, len(model["props"]))
         self.P = 1
@@ -67,6 +68,7 @@ class StepBudget(Base):
         if use_lines:
             self.lb = LineBudget()
             self.lb.install(propagator_modules())
+        hub.linebudget = self.lb
         hub.on("alg_enter", self.alg_enter)
         hub.on("alg_exit", self.alg_exit)
         hub.on("prop_enter", self.prop_enter)
@@ -81,6 +83,7 @@ class StepBudget(Base):
             self.counts["max_lines_in_one_call"] = self.lb.max_seen
             self.lb.uninstall()
             self.lb = None
+        self.hub_ref.linebudget = None
 
     def _tr(self, *e):
         self.trace.append(e)
@@ -166,6 +169,7 @@ class StepBudget(Base):
 class CallJudge(Base):
     def __init__(self, hub, name_of, hull_limit=2000, second_call=True, cache=None):
         super().__init__()
+        self.hub = hub
         self.name_of = name_of
         self.hull_limit = hull_limit
         self.cache = cache if cache is not None else {}
@@ -193,9 +197,22 @@ class CallJudge(Base):
             f = self.PP.COMPUTE_DOMAINS_FCTS[int(alg)]
             f = getattr(f, "__wrapped__", f)
             d2 = after.copy()
+            lb = getattr(self.hub, "linebudget", None)
             try:
-                st2 = int(f(d2, params))
+                if lb is not None:
+                    lb.begin(line_limit(len(box), len(p)))
+                try:
+                    st2 = int(f(d2, params))
+                finally:
+                    if lb is not None:
+                        lb.end()
                 second = (st2, d2.tolist())
+            except BudgetExceeded as e:
+                second = None
+                self.fail("C14", "second_call_did_not_complete", str(e), call={"name": name, "box": out, "params": p},
+                          status=int(status), out=out)
+                self.fail("C04", "propagator_step_budget", str(e), call={"name": name, "box": out, "params": p},
+                          status=int(status), out=out)
             except Exception:
                 second = None
         fails, facts = callcheck.judge(name, box, p, int(status), out, second, hull_limit=self.hull_limit,
